@@ -32,6 +32,8 @@ ByRecord(a) ==
     [] a.op = "raise" -> Raise(a.cls)
     [] a.op = "makegen" -> MakeGen(a.kind, a.k)
     [] a.op = "gennext" -> GenNext
+    [] a.op = "makedc" -> MakeDC(a.k)
+    [] a.op = "baddc" -> BadDC(a.catches)
 
 Act1 == /\ l <= Len(Log) /\ Log[l].ev = "act"
         /\ ByRecord(Log[l].a)                 \* the specification's own action
